@@ -79,6 +79,14 @@ def check_case(ctx, out, descs, w, mode, origin):
         out.count('illposed:' + origin); return
     pot_x, volt_x, cur_x = ex
     scale = max([abs(v) for v in list(pot_x.values()) + list(cur_x.values())] + [1.0])
+    # each class of quantity is judged relative to its own magnitude (a circuit of MΩ and µA must not hide behind an
+    # absolute floor): |impl − exact| ≤ 1e-6·max|exact values of that class| + 1e-12·(1 + overall magnitude)
+    sc_v = max([abs(v) for v in list(pot_x.values()) + list(volt_x.values())] + [0.0])
+    sc_i = max([abs(v) for v in cur_x.values()] + [0.0])
+    raw = max([abs(v) for v in list(pot_x.values()) + list(cur_x.values())] + [0.0])
+    def near(got, want, cls_scale):
+        got = complex(got); want = complex(want)
+        return np.isfinite(got) and abs(got - want) <= 1e-6 * fscale * cls_scale + 1e-12 * fscale * (1.0 + raw)
     ymax = max([abs(core.cfloat(b['e']['a'])) for b in sp['net']['branches']] + [1.0])
     # ---- implementation
     try:
@@ -121,6 +129,7 @@ def check_case(ctx, out, descs, w, mode, origin):
         out.traces_validated += 1
     # ---- oracle: the exact phasor solution of the intended network
     f = (lambda z: z.real) if mode == 'dc' else ((lambda z: z) if mode == 'peak' else (lambda z: z / R2))
+    fscale = 1.0 if mode != 'rms' else 1.0 / R2
     tol = 1e-7 * max(1.0, min(ymax, 1e3))
     bad = None
     for n, v in pot_x.items():
@@ -128,7 +137,7 @@ def check_case(ctx, out, descs, w, mode, origin):
             got = complex(S.get_potential(n))
         except Exception as e:
             bad = ('potential', n, gc.tag(e), f(v)); break
-        if not core.close(got, f(v), scale, tol):
+        if not (core.close(got, f(v), scale, tol) and near(got, f(v), sc_v)):
             bad = ('potential', n, got, f(v)); break
     if bad is None:
         for b in sp['net']['branches']:
@@ -138,7 +147,7 @@ def check_case(ctx, out, descs, w, mode, origin):
                     got = complex(getter(i))
                 except Exception as e:
                     bad = (name, i, gc.tag(e), f(want)); break
-                if not core.close(got, f(want), scale, tol):
+                if not (core.close(got, f(want), scale, tol) and near(got, f(want), sc_v if name == 'voltage' else sc_i)):
                     bad = (name, i, got, f(want)); break
             if bad: break
     if bad is not None:
@@ -236,6 +245,73 @@ def high_frequency_cases(rng, wres):
                      dict(fn='resistor', id='R2', nodes=['1', '0'], args=dict(R=4.0))]
             yield descs, off, rng.choice(['peak', 'rms'])
 
+def typed(rng, descs):
+    """the same circuit with ints, numpy scalars and numpy complex numbers as values"""
+    out_ = []
+    for d in descs:
+        a = {}
+        for k, v in d['args'].items():
+            if isinstance(v, complex):
+                a[k] = np.complex128(v) if rng.random() < 0.7 else v
+            elif isinstance(v, float):
+                c = rng.random()
+                a[k] = int(v) if (v == int(v) and c < 0.4) else (np.float64(v) if c < 0.8 else (np.int64(v) if v == int(v) else np.float32(v) if float(np.float32(v)) == v else v))
+            else:
+                a[k] = v
+        out_.append(dict(d, args=a))
+    return out_
+
+def si_scaled(rng):
+    """impedance level Z0 and frequency w over decades: R = Z0·r, G = g/Z0, L = Z0·l/w, C = c/(Z0·w), I = a/Z0 —
+    MΩ / pF / nH / µA at w up to 1e8; driven by current sources so that the conditioning does not depend on Z0"""
+    Z0 = rng.choice([1e6, 1e3, 50.0, 1e-3, 4.7e5])
+    w = rng.choice([1e3, 1e6, 1e8, 2 * math.pi * 50, 3.3e7])
+    descs = gc.random_circuit(rng, ['resistor', 'resistor', 'capacitor', 'inductance', 'conductance', 'impedance', 'admittance', 'ac_current_source'],
+                              exact=False, n_nodes=rng.randint(2, 5), freqs=[w], source_kinds=['ac_current_source'], internal=True)
+    for d in descs:
+        a = d['args']
+        r = float(f'{rng.uniform(0.2, 5):.3g}')
+        if d['fn'] == 'resistor': a['R'] = Z0 * r
+        elif d['fn'] == 'conductance': a['G'] = r / Z0
+        elif d['fn'] == 'capacitor': a['C'] = r / (Z0 * w)
+        elif d['fn'] == 'inductance': a['L'] = Z0 * r / w
+        elif d['fn'] == 'impedance': a['Z'] = complex(Z0 * r, Z0 * rng.uniform(-2, 2))
+        elif d['fn'] == 'admittance': a['Y'] = complex(r / Z0, rng.uniform(-2, 2) / Z0)
+        elif d['fn'] == 'ac_current_source': a.update(I=r / Z0, G=rng.choice([0.0, 0.5 / Z0]), w=w)
+    return descs, w
+
+ZERO_KEYS = {'resistor': 'R', 'conductance': 'G', 'capacitor': 'C', 'inductance': 'L', 'lamp': 'P', 'resistive_load': 'P',
+             'dc_voltage_source': 'V', 'ac_voltage_source': 'V', 'dc_current_source': 'I', 'ac_current_source': 'I'}
+
+def coverage_cases(ctx):
+    """streams the random circuits above do not reach: source-free circuits, int / numpy typed values, SI scales,
+    zero amplitudes, zero-valued elements inside full circuits, 6–12 node circuits.  Yields (descs, w, mode, origin)."""
+    rng = ctx.rng('coverage')
+    q = ctx.quick
+    for _ in range(8 if q else 80):                                          # no source at all: everything is zero
+        descs = gc.random_circuit(rng, EXACT_PASSIVE, exact=True, n_nodes=rng.randint(2, 5), min_sources=0, source_kinds=[])
+        for w, mode in ((0.0, 'dc'), (1.0, 'peak'), (2.0, 'rms')):
+            yield descs, w, mode, 'source_free'
+    for _ in range(10 if q else 100):                                         # ints, numpy floats / ints / complex
+        descs = gc.random_circuit(rng, list(EXACT_PASSIVE) + SOURCES + ['complex_voltage_source'], exact=True, n_nodes=rng.randint(2, 4),
+                                  freqs=[1.0, 2.0], source_kinds=SOURCES)
+        yield typed(rng, descs), rng.choice([0.0, 1.0, 2.0]), rng.choice(['peak', 'rms']), 'typed_values'
+    for _ in range(14 if q else 200):                                         # MΩ, pF, nH, µA, w up to 1e8
+        descs, w = si_scaled(rng)
+        yield descs, w, rng.choice(['peak', 'rms']), 'si_scaled'
+    for _ in range(10 if q else 100):                                         # zero amplitudes and zero-valued elements
+        descs = gc.random_circuit(rng, list(EXACT_PASSIVE) + SOURCES, exact=True, n_nodes=rng.randint(2, 5), freqs=[1.0, 2.0], source_kinds=SOURCES)
+        cand = [d for d in descs if d['fn'] in ZERO_KEYS]
+        for d in rng.sample(cand, min(len(cand), rng.randint(1, 2))):
+            d['args'][ZERO_KEYS[d['fn']]] = 0.0
+        w = rng.choice([0.0, 1.0, 2.0])
+        yield descs, w, ('dc' if w == 0 and rng.random() < 0.5 else rng.choice(['peak', 'rms'])), 'zero_values'
+    for _ in range(4 if q else 60):                                           # larger circuits
+        descs = gc.random_circuit(rng, list(EXACT_PASSIVE) * 2 + SOURCES, exact=rng.random() < 0.5, n_nodes=rng.randint(6, 12),
+                                  freqs=[1.0, 2.0, 0.5], source_kinds=SOURCES)
+        w = rng.choice([0.0, 1.0, 2.0, 0.5])
+        yield descs, w, ('dc' if w == 0 else rng.choice(['peak', 'rms'])), 'large'
+
 def frequencies(rng, descs, wres):
     ws = [0.0]
     src = sorted({d['args']['w'] for d in descs if d['fn'] in ('ac_voltage_source', 'ac_current_source')})
@@ -256,6 +332,8 @@ def run(ctx, out):
                 'plus a high-frequency sweep: ac / periodic sources at 1e2 … 1e5, 2^10, 2^14 analysed at w_src ± k·w_res, k ∈ {0.5, 1, 1.5, 2, 5, 10, 100}, '
                 'and w_src·(1 ± 2^-20), DC sources at k·w_res (gate decided on the exact rationals; cases where binary64 and exact '
                 'decision differ — the boundary itself — are skipped as tie_margin); '
+                'plus streams: source-free circuits, int / numpy typed values, SI scales (Z0 1e-3 … 1e6, w up to 1e8), zero amplitudes and '
+                'zero-valued elements, 6–12 nodes; each quantity class judged relative to its own magnitude; '
                 'modes dc / peak / rms; a case is non-trivial when the intended network is well-posed (exact tableau) and the '
                 'reported potentials, voltages, currents equal its exact solution; distinct by (kind set, node count, mode, w = 0)')
     for descs, w, mode in CORPUS:
@@ -267,6 +345,9 @@ def run(ctx, out):
     for descs, w, mode in hf:
         if ctx.time_left() < 30: out.notes.append('high-frequency sweep cut by budget'); break
         check_case(ctx, out, descs, w, mode, 'high_frequency')
+    for descs, w, mode, origin in coverage_cases(ctx):
+        if ctx.time_left() < 25: out.notes.append('coverage streams cut by budget'); break
+        check_case(ctx, out, descs, w, mode, origin)
     rng = ctx.rng('random')
     n = 160 if ctx.quick else 1500
     for k in range(n):
